@@ -462,7 +462,7 @@ theorem refr_detect {s : St} (h : Refr s) (t : Tables s) (c : Cfg) (call : Call)
         split
         · exact h
         · split
-          · exact refr_refresh (refr_of_same h (sameR_modRef s call.slot (fun r => { r with deCalls := r.deCalls + 1 }) (fun _ => rfl)))
+          · exact refr_refresh (refr_of_same h (sameR_modRef s call.slot (fun r => { r with deCalls := satInc r.deCalls }) (fun _ => rfl)))
               (tables_of_same t (SameT.modRef s call.slot _)) _
           · exact refr_of_same h (sameR_modRef _ _ _ (fun _ => rfl))
 
